@@ -79,7 +79,7 @@ fn gen_case(rng: &mut Rng, tier: Tier, sched_weight: usize, cut: (usize, usize),
     let sub_at = if rng.chance(1, 4) { rng.below(acts.len().max(1)) } else { 0 };
     let style = rng.below(6);
     let finish_after = if rng.chance(1, 5) { rng.range(1, 3) } else { 0 };
-    PCase { threads_flavour: rng.chance(1, 2), fifo: rng.chance(1, 2), n_hot, root, acts, sub_at, closure_subscriber: style == 1, sub_style: if style == 2 { 2 } else { 0 }, finish_after, panic_at: 0 }
+    PCase { threads_flavour: rng.chance(1, 2), fifo: rng.chance(1, 2), n_hot, root, acts, sub_at, closure_subscriber: style == 1, sub_style: if style == 2 { 2 } else { 0 }, finish_after, panic_at: 0, guard_unwinds: false }
   }
 }
 
@@ -129,7 +129,10 @@ impl Scenario for C02 {
     (&["operator catalogue (scheduler-using operators over-weighted)", "subscription.rs (ZipSubscription, MultiSubscription, guards)", "scheduler.rs TaskHandle cancellation"], &["executor, timer, clock (sim)"])
   }
   fn generate(&self, rng: &mut Rng, tier: Tier) -> Value {
-    serde_json::to_value(gen_case(rng, tier, 3, (1, 1), vec![])).unwrap()
+    let mut c = gen_case(rng, tier, 3, (1, 1), vec![]);
+    // drawn last: the rest of the case is what it was without this fault
+    c.guard_unwinds = rng.chance(1, 3);
+    serde_json::to_value(c).unwrap()
   }
   fn run(&self, case: &Value) -> Result<Outcome, String> {
     let case: PCase = serde_json::from_value(case.clone()).map_err(|e| e.to_string())?;
@@ -155,7 +158,7 @@ impl Scenario for C02 {
       &run,
       violation,
       nt,
-      vec![("unsubscribe_at_random_point", (run.cut.is_some() && !run.cut_via_guard) as u64), ("guard_drop_at_random_point", run.cut_via_guard as u64)],
+      vec![("unsubscribe_at_random_point", (run.cut.is_some() && !run.cut_via_guard) as u64), ("guard_drop_at_random_point", run.cut_via_guard as u64), ("guard_dropped_by_an_unwinding_owner", (run.cut_via_guard && case.guard_unwinds) as u64)],
       vec![("cut_with_pending_task_or_timer", run.cut_with_pending_tasks as u64)],
     ))
   }
